@@ -27,7 +27,8 @@ RULE = (
     "binding configs, targets, filters, hardware requirement, commands, output processors), optionally with a loop "
     "combinator pair - plus token trees of every token class (nested list/object/job/file tokens with unicode "
     "strings and JSON scalars); a second workflow sharing the same DeploymentConfig/Target/FilterConfig objects is "
-    "saved CONCURRENTLY, and two loads + one deep copy run concurrently, all through the FIFO database server with "
+    "saved CONCURRENTLY (in the enumerated second family the token trees share inner token objects between "
+    "containers, so that two savers meet on one unsaved token), and two loads + one deep copy run concurrently, all through the FIFO database server with "
     "seeded service times. Oracle: structural equality (types, names, wiring, every public attribute, nested "
     "objects) original <-> loaded; deep copy equal with no persistent ids; exactly one row per shared entity; after "
     "mutating every mutable attribute of one load, a third load still equals the original and the other load is "
@@ -134,19 +135,33 @@ def mutate_all(obj, seen=None, depth=0):
             mutate_all(v, seen, depth + 1)
 
 
-def gen_token(t, depth=0):
+def cases(tier):
+    # second family: token trees in which inner token OBJECTS are shared between containers that are saved concurrently
+    return [{"share_tokens": True} for _ in range(400 if tier == "quick" else 30000)]
+
+
+def gen_token(t, depth=0, pool=None):
+    if pool is not None and depth >= 1 and pool and t.draw(3, "tok.share") == 0:
+        return pool[t.draw(len(pool), "tok.shared")]
+    tok = _gen_token(t, depth, pool)
+    if pool is not None and depth >= 1:
+        pool.append(tok)
+    return tok
+
+
+def _gen_token(t, depth, pool):
     k = t.draw(7 if depth < 2 else 3, "tok.kind")
     tag = ("0", "0.3", "0.10.2")[t.draw(3, "tok.tag")]
     scal = (None, True, 0, -7, 3.5, "", "plain", "ünï©ødé ✓", "quote\"'\\n", [1, "a", None], {"k": [1, {"z": "é"}]})
     if k <= 2:
         return Token(scal[t.draw(len(scal), "tok.scalar")], tag=tag, recoverable=bool(t.draw(2, "tok.rec")))
     if k == 3:
-        return ListToken([gen_token(t, depth + 1) for _ in range(t.draw(4, "tok.n"))], tag=tag)
+        return ListToken([gen_token(t, depth + 1, pool) for _ in range(t.draw(4, "tok.n"))], tag=tag)
     if k == 4:
-        return ObjectToken({f"k{i}é": gen_token(t, depth + 1) for i in range(t.draw(3, "tok.n"))}, tag=tag)
+        return ObjectToken({f"k{i}é": gen_token(t, depth + 1, pool) for i in range(t.draw(3, "tok.n"))}, tag=tag)
     if k == 5:
         return R.SimFileToken("/some/päth with space/file.txt", tag=tag, recoverable=bool(t.draw(2, "tok.rec")))
-    job = Job(name=f"/step ü/{tag}", workflow_id=1, inputs={"x": gen_token(t, depth + 1), "y": gen_token(t, depth + 1)},
+    job = Job(name=f"/step ü/{tag}", workflow_id=1, inputs={"x": gen_token(t, depth + 1, pool), "y": gen_token(t, depth + 1, pool)},
               input_directory="/in dir", output_directory=None, tmp_directory="/tmp/ü")
     return JobToken(job, tag=tag)
 
@@ -157,7 +172,8 @@ def run(sim, params):
     with_loop = t.draw(3, "with.loop") == 2
     with_filters = t.draw(2, "with.filters")
     ntok = 1 + t.draw(5, "ntokens")
-    toks = [gen_token(t) for _ in range(ntok)]
+    pool = [] if params.get("share_tokens") else None
+    toks = [gen_token(t, 0, pool) for _ in range(ntok)]
     extra = [TerminationToken(Status.RECOVERED), IterationTerminationToken("0.4")] if t.draw(2, "special.tokens") else []
     plan = dag.generate(t, max_nodes=8) if family == "dag" else None
     shape = S.gen_shape(t) if family == "recovery" else None
@@ -235,7 +251,18 @@ def run(sim, params):
             bld = WorkflowBuilder(db, deep_copy=True)
             return await bld.load_workflow(wf.persistent_id)
 
-        (l1, t1), (l2, t2), dc = await asyncio.gather(asyncio.create_task(load()), asyncio.create_task(load()), asyncio.create_task(deep()))
+        try:
+            (l1, t1), (l2, t2), dc = await asyncio.gather(asyncio.create_task(load()), asyncio.create_task(load()), asyncio.create_task(deep()))
+        except (Violation, asyncio.CancelledError):
+            raise
+        except Exception as e:
+            from ..core import repo_frame_of
+
+            fr = repo_frame_of(e.__traceback__)
+            if fr is None:
+                raise
+            raise Violation("load_raised", f"loading what was just saved raised {type(e).__name__}: {e} at {fr}; tokens={[canon(token_structure(x))[:200] for x in toks]}; case={canon(info)[:300]}",
+                            signature=f"load_raised:{type(e).__name__}:{fr}")
         for label, w in (("load#1", l1), ("load#2", l2), ("deep copy", dc)):
             got = workflow_structure(w)
             if canon(got) != canon(original):
